@@ -8,6 +8,7 @@ from pyvc.sym import (Sym, SInt, SReal, SBool, SSeq, CList, CDict, SObj, SRange,
 from pyvc import gen as G
 from contracts.obsmodel import Layout, ObsSpec, _ObsOn, mk_obs, A, D, chain, names_of
 import contracts.obs_kernel  # noqa: F401  (callee contracts)
+import contracts.obs_init  # noqa: F401
 
 REL = "pyerrors/obs.py"
 
@@ -172,6 +173,10 @@ ACC_LAYOUTS = {
     "two-ensembles": ([("A|r1", "range")], [("B|r1", "list")], [("A|r1", "range"), ("B|r1", "list")]),
     "single-operand": ([("A|r1", "list")], None, [("A|r1", "list")]),
 }
+
+
+# C03: deriving observables reads only the data of its inputs, never results of an earlier error analysis
+OBS_DATA_ATTRS = {"Obs": {"names", "idl", "deltas", "r_values", "shape", "_value", "_covobs", "reweighted", "N", "tag"}}
 
 
 def _acc_loop(mod, fnode):
@@ -360,6 +365,7 @@ contract(
     cases_filter=lambda case: case["data"] == case["new_idl_d"] == case["deriv"],
     inline=[REL + "::Obs.mc_names", REL + "::Obs.cov_names", REL + "::Obs.covobs"],
     requires=_acc_requires,
+    reads_allowed=OBS_DATA_ATTRS,
     pre_execute=_acc_execute_hook,
     writes=("new_deltas", "new_grad"),
     ensures=_acc_post,
@@ -368,4 +374,183 @@ contract(
                "enumerated chain layout), deriv (symbolic), new_idl_d (symbolic merged lists containing every operand's list), empty "
                "new_deltas / new_grad; the nested _compute_scalefactor_missing_rep is the real nested function bound to new_idl_d",
     note="covariance inputs are not part of these layouts (gradient accumulation not decided)",
+)
+
+
+# ---------------------------------------------------------------------------------------------------
+# derived_observable: central value, replica means and merged configuration lists (statement slice)
+
+def _asm_slice(mod, fnode):
+    body = fnode.body
+    start = end = None
+    for i, st in enumerate(body):
+        if isinstance(st, ast.Assign) and isinstance(st.targets[0], ast.Name) and st.targets[0].id == "n_obs":
+            start = i
+        if isinstance(st, ast.For) and isinstance(st.iter, ast.Name) and st.iter.id == "new_sample_names" and start is not None and end is None:
+            end = i
+    if start is None or end is None:
+        from pyvc.sym import CheckerError
+        raise CheckerError("contract no longer binds: assembly block of derived_observable not found")
+    return body[start:end + 1]
+
+
+def _symfunc(n):
+    F = z3.Function("user_f", *([z3.RealSort()] * (n + 1)))
+    return F
+
+
+class _FuncSpec(Spec):
+    def variants(self):
+        return [(k, Custom(lambda nm, c, s, k=k: SOpaque("symfunc", _symfunc(1 if ACC_LAYOUTS[k][1] is None else 2)))) for k in ACC_LAYOUTS]
+
+
+from pyvc.sym import SOpaque, treal  # noqa: E402
+
+
+def _asm_post(a, r):
+    ops = _ops(a.data)
+    n = len(ops)
+    F = _symfunc(n)
+    out = {"value": eq(r.new_values, wrap(F(*[treal(A(o, "_value")) for o in ops])))}
+    names = sorted(set(cn for o in ops for cn in names_of(o)))
+    out["names"] = list(r.new_names.items) == names and list(r.new_sample_names.items) == names
+    out["flag"] = Iff(r.reweighted, Or(*[_flag(A(o, "reweighted")) for o in ops]))
+    for cn in names:
+        rv = [chain(o, cn, "r_values") if cn in names_of(o) else A(o, "_value") for o in ops]
+        out["r_value.%s" % cn] = eq(D(r.new_r_values, cn), wrap(F(*[treal(x) for x in rv])))
+        ni = D(r.new_idl_d, cn)
+        have = [chain(o, cn, "idl") for o in ops if cn in names_of(o)]
+        from contracts.obs_kernel import subset, in_some
+        from pyvc.sym import strictly_increasing
+        out["union.sorted.%s" % cn] = strictly_increasing(ni)
+        out["union.complete.%s" % cn] = And(*[subset(x, ni) for x in have])
+        out["union.sound.%s" % cn] = ForAll(0, Len(ni), lambda k, ni=ni, have=have: Or(*[_member(At(ni, k), x) for x in have]))
+    return out
+
+
+def _member(c, x):
+    from pyvc.sym import member
+    return member(c, x)
+
+
+def _flag(f):
+    return f if isinstance(f, Sym) else bool(f)
+
+
+contract(
+    REL + "::derived_observable", name=REL + "::derived_observable[value, replica means, merged lists]", props=["C01", "C05"],
+    slice=_asm_slice,
+    params=dict(data=AccCase("data"), raveled_data=Custom(lambda n, c, s: None), func=_FuncSpec(), kwargs=Custom(lambda n, c, s: CDict())),
+    cases_filter=lambda case: case["data"] == case["func"],
+    reads_allowed=OBS_DATA_ATTRS,
+    pre_execute=lambda interp, mod, fnode, args: args.__setitem__("raveled_data", args["data"]),
+    inline=[REL + "::Obs.mc_names", REL + "::Obs.cov_names", REL + "::Obs.covobs", REL + "::Obs.value"],
+    ensures=_asm_post,
+    native_ok=False, crosscheck=False, refute=False,
+    slice_note="statements from `n_obs = ...` through the loop that fills new_r_values / new_idl_d; live-in: data (== raveled_data: a "
+               "1-D list of 1 or 2 observables on an enumerated layout), func (an uninterpreted function of the vector of values)",
+    note="C01: central value = f(central values); replica means = f(replica means, falling back to the central value); result lists = "
+         "union of the operands' lists (through the contract of _merge_idx). C05: the flag is the or of the operands' flags.",
+)
+
+
+# ---------------------------------------------------------------------------------------------------
+# derived_observable: assembly of the result object (statement slice) - C04: what is returned is well-formed
+
+def _res_slice(mod, fnode):
+    loops = [n for n in ast.walk(fnode) if isinstance(n, ast.For)]
+    for lp in loops:
+        it = lp.iter
+        if isinstance(it, ast.Call) and isinstance(it.func, ast.Attribute) and it.func.attr == "ndenumerate" and \
+                isinstance(it.args[0], ast.Name) and it.args[0].id == "new_values":
+            for i, st in enumerate(lp.body):
+                if isinstance(st, ast.Assign) and isinstance(st.targets[0], ast.Name) and st.targets[0].id == "new_covobs":
+                    return lp.body[i:]
+    from pyvc.sym import CheckerError
+    raise CheckerError("contract no longer binds: result assembly of derived_observable not found")
+
+
+class ResCase(Spec):
+    def __init__(self, which):
+        self.which = which
+
+    def variants(self):
+        return [(k, _ResOn(k, self.which)) for k in ACC_LAYOUTS]
+
+
+class _ResOn(Spec):
+    def __init__(self, key, which):
+        self.key, self.which = key, which
+        self.lr = ACC_LAYOUTS[key][2]
+
+    def make(self, name, ctx, shape=None):
+        w = self.which
+        names = [cn for cn, _ in self.lr]
+        if w == "new_idl_d":
+            d = CDict()
+            for cn, kind in self.lr:
+                x = (IdlRange(5) if kind == "range" else IdlList(5)).make("new." + cn, ctx, None)
+                if kind == "list":
+                    n = Len(x)
+                    ctx.assume(Not(ForAll(0, n - 1, lambda k, x=x: At(x, k + 1) - At(x, k) == At(x, 1) - At(x, 0))))
+                d.d[cn] = x
+            return d
+        if w == "new_deltas":
+            d = CDict()
+            for cn in names:
+                s = SSeq.fresh("nd." + cn, "ndarray", "real")
+                ctx.assume(s.length >= 0)
+                d.d[cn] = s
+            return d
+        if w == "new_r_values":
+            return CDict({cn: SReal(z3.Real(fresh("nr." + cn))) for cn in names})
+        if w == "new_names":
+            return CList(list(names), "list")
+        raise AssertionError(w)
+
+
+def _res_post(a, r):
+    from contracts.obsmodel import wf
+    o = D(r.final_result, ())
+    names = _ops(a.new_names)
+    out = {"is-obs": o is not UNDEF and o.cls == "Obs"}
+    if o is UNDEF:
+        return out
+    out["names"] = names_of(o) == sorted(names)
+    total = 0
+    for cn in names:
+        ni = D(a.new_idl_d, cn)
+        oi = chain(o, cn, "idl")
+        out["idl.%s" % cn] = And(Len(oi) == Len(ni), ForAll(0, Len(ni), lambda k, oi=oi, ni=ni: At(oi, k) == At(ni, k)),
+                                  is_range_(oi) == is_range_(ni))
+        out["deltas.%s" % cn] = chain(o, cn, "deltas") is D(a.post.new_deltas, cn)
+        out["shape.%s" % cn] = And(chain(o, cn, "shape") == Len(ni), Len(chain(o, cn, "deltas")) == Len(ni))
+        out["r_value.%s" % cn] = eq(chain(o, cn, "r_values"), D(a.new_r_values, cn))
+        total = total + Len(ni)
+    out["N"] = A(o, "N") == total
+    out["value"] = eq(A(o, "_value"), a.new_val)
+    out["flag"] = Iff(_flag(A(o, "reweighted")), a.reweighted)
+    return out
+
+
+def is_range_(x):
+    from pyvc.sym import is_range
+    return is_range(x)
+
+
+contract(
+    REL + "::derived_observable", name=REL + "::derived_observable[result assembly]", props=["C04", "C05"],
+    slice=_res_slice,
+    params=dict(new_idl_d=ResCase("new_idl_d"), new_deltas=ResCase("new_deltas"), new_r_values=ResCase("new_r_values"),
+                new_names=ResCase("new_names"), new_grad=Custom(lambda n, c, s: CDict()), allcov=Custom(lambda n, c, s: CDict()),
+                final_result=Custom(lambda n, c, s: CDict()), i_val=Const(()), new_val=Custom(lambda n, c, s: SReal(z3.Real(fresh("new_val")))),
+                reweighted=Custom(lambda n, c, s: SBool(z3.Bool(fresh("reweighted"))))),
+    cases_filter=lambda case: len(set(case.values())) == 1,
+    requires=lambda a: {"lengths": And(*[Len(D(a.new_deltas, cn)) == Len(D(a.new_idl_d, cn)) for cn in _keys(a.new_idl_d)])},
+    writes=("final_result",),
+    ensures=_res_post,
+    native_ok=False, crosscheck=False, refute=False,
+    slice_note="from `new_covobs = ...` to the end of the body of the loop over new_values; live-in: the merged lists (lists are not "
+               "equally spaced: postcondition of _merge_idx), accumulated fluctuations of matching length, replica means, value, flag",
+    note="the result is constructed through Obs.__init__(means=...) (contract of the constructor); covariance inputs not part of the layouts",
 )
